@@ -29,7 +29,7 @@ RULE = (
     "context()+finish, finish without context}, extra finish calls in {0, 1, 2 (one with an exception "
     "argument)}, start fields on/off, success fields on/off, optionally while an unrelated exception is being "
     "handled (inside except / finally)); full product for depth 1, registrations restricted to 9 "
-    "representatives for depth 2-3; plus all histories of <= 3 events over {fail A/B/C, register "
+    "representatives for depth 2-3; plus all histories of <= 4 events over {fail A/B/C, register "
     "extractor for A/B/C (returning/raising), succeed} with registrations arriving after failures; non-trivial = case that raises"
 )
 ASSUMPTIONS = [
@@ -129,7 +129,7 @@ def cases(unit, tier):
         import itertools as it
 
         evs = history_events()
-        for n in (1, 2, 3) if tier == "quick" else (1, 2, 3, 4):
+        for n in (1, 2, 3, 4) if tier == "quick" else (1, 2, 3, 4, 5):
             for seq in it.product(range(len(evs)), repeat=n):
                 if any(evs[i][0] == "fail" for i in seq):
                     yield ["history", [evs[i] for i in seq]]
